@@ -92,7 +92,8 @@ class Ctx:
                                                  ("REFINE2", "Refine2", {"C08", "C09"}),
                                                  ("RACE", "Race", {"C04"}),
                                                  ("DEADLOCK2", "Deadlock2", {"C05"}),
-                                                 ("REFINE3", "Refine3", {"C10", "C11"}))
+                                                 ("REFINE3", "Refine3", {"C10", "C11"}),
+                                                 ("REFINE5", "Refine5", {"C17"}))
                   if pid in users]
         table = json.load(open(os.path.join(lvlib.VERIF, "checks", "theorems.json")))
         theorems = list(theorems)
